@@ -550,13 +550,40 @@ func (f *Formatter) renderOpenTag(n *html.Node) string {
 		buf.WriteString(attr.Key)
 		if attr.Val != "" {
 			buf.WriteString("=\"")
-			buf.WriteString(helpers.FormatAttr(attr.Val))
+			buf.WriteString(escapeAttr(helpers.FormatAttr(attr.Val)))
 			buf.WriteString("\"")
 		}
 	}
 
 	buf.WriteString(">")
 	return buf.String()
+}
+
+// escapeAttr escapes an attribute value for output between double quotes.
+// Double quotes always become &quot;. An ampersand is escaped only where the
+// HTML parser would otherwise read a character reference (when it is followed
+// by a letter or '#'), so that expressions like "a && b" stay readable.
+func escapeAttr(s string) string {
+	if !strings.ContainsAny(s, "\"&") {
+		return s
+	}
+	var b strings.Builder
+	b.Grow(len(s) + 8)
+	for i := 0; i < len(s); i++ {
+		switch c := s[i]; {
+		case c == '"':
+			b.WriteString("&quot;")
+		case c == '&' && i+1 < len(s) && (s[i+1] == '#' || isASCIILetter(s[i+1])):
+			b.WriteString("&amp;")
+		default:
+			b.WriteByte(c)
+		}
+	}
+	return b.String()
+}
+
+func isASCIILetter(c byte) bool {
+	return (c >= 'a' && c <= 'z') || (c >= 'A' && c <= 'Z')
 }
 
 // renderCloseTag renders a closing tag.
